@@ -984,7 +984,7 @@ def dispatch : List DispItem := [
       { value := "doubled_prices_in_country", actions := [.call "set_country_waste_to_doubled_prices"] },
       { value := "baseline_in_country", actions := [.call "set_country_waste_to_baseline_prices"] },
       { value := "tripled_prices_globally", actions := [.call "set_global_waste_to_tripled_prices"] },
-      { value := "doubled_prices_globally", actions := [.call "set_global_waste_to_tripled_prices"] },
+      { value := "doubled_prices_globally", actions := [.call "set_global_waste_to_doubled_prices"] },
       { value := "baseline_globally", actions := [.call "set_global_waste_to_baseline_prices"] }] none,
   .family "nutrition" [
       { value := "baseline", actions := [.call "set_baseline_nutrition_profile"] },
